@@ -258,6 +258,11 @@ func (r *WireReader) Range(start, end int) Wire {
 	if start < 0 || end > r.accSz[len(r.wire)] || start > end {
 		return nil
 	}
+	if start == end {
+		// An empty range belongs to no segment (at a segment boundary the search
+		// below would pick a start segment after the end segment)
+		return Wire{}
+	}
 	var startSeg, startPos, endSeg, endPos int
 	for i := 0; i < len(r.wire); i++ {
 		if r.accSz[i] <= start && r.accSz[i+1] > start {
